@@ -159,6 +159,8 @@ def make_class(case):
         opts["init_overflow_attr"] = OVERFLOW
     if select == "attrs":
         opts["attrs"] = [a for a, _ in attrs]
+        if case.get("one_shot"):
+            opts["attrs"] = (a for a in list(opts["attrs"]))  # documented as Iterable[str]: a generator is one
     elif select == "attrs_typed":
         opts["attrs_typed"] = {a: TYPES[t] for a, t in attrs}
     elif select == "skip":
@@ -170,7 +172,7 @@ def make_class(case):
         if select.startswith("attrs_typed"):
             opts["attrs_typed"] = {a0: TYPES[t0]}
         else:
-            opts["attrs"] = [a0]
+            opts["attrs"] = iter([a0]) if case.get("one_shot") else [a0]
         if select.endswith("+skip0"):
             opts["attrs_skip"] = [(), [], set(), frozenset()][len(attrs) % 4]
         elif select.endswith("+skip1"):
@@ -333,6 +335,19 @@ def run_case(ctx, case):
         dec.__spec_class__  # force bootstrap
     except RuntimeError as e:
         if err is True:
+            if not case["eager"]:
+                # a lazily decorated class reports the collision at its first use - and at every later one: it must not
+                # become usable (without the documented helpers) once the caller has caught the error
+                for again in ("instantiate", "metadata", "instantiate"):
+                    try:
+                        state = dec() if again == "instantiate" else dec.__spec_class__.attrs
+                    except RuntimeError:
+                        continue
+                    except Exception as e2:
+                        ctx.fail(f"collision|second_use:{type(e2).__name__}", case, f"after the reported collision, a second {again} raised {e2!r} instead of the RuntimeError")
+                        return
+                    ctx.fail("collision|not_reported_again", case, f"after the reported collision ({e}), a second {again} succeeded: {state!r}; helpers present: {sorted(n for n in vars(dec) if n.startswith(('with_', 'update', 'transform', 'reset')))}")
+                    return
             ctx.count("collision:raised")
             ctx.case(case, True)
             return
@@ -514,6 +529,8 @@ def enum_cases():
             yield base_case(attrs, select=select, eager=eager, private=private)
         for sw in (["init"], ["repr"], ["eq"], ["init", "repr", "eq"]):
             yield base_case(attrs, switches_off=sw, eager=False)
+        for select, eager in itertools.product(["attrs", "attrs+skip0", "attrs+skip1", "attrs_only_first"], [True, False]):
+            yield base_case(attrs, select=select, eager=eager, one_shot=True)
         for eager in (True, False):
             yield base_case(attrs, prep_scalars=True, eager=eager)
         for ud in (["__init__"], ["__repr__"], ["__eq__"], ["__new__"], ["__init__", "__repr__", "__eq__", "__new__"]):
@@ -556,6 +573,8 @@ def case_strategy(draw):
             c["split_mode"] = "bases"
         return c
     c["prep_scalars"] = src.chance(1, 4)
+    if c["select"].startswith("attrs") and not c["select"].startswith("attrs_typed") and src.chance(1, 3):
+        c["one_shot"] = True
     if src.chance(1, 5):
         c["overflow"] = True
     c["switches_off"] = [s for s in ("init", "repr", "eq") if src.chance(1, 6)]
